@@ -1222,17 +1222,33 @@ def run_big(ctx):
             ctx.compare("bin1_offset = running sum of per-row record counts", case, out["bin1_offset"], list(mos[vecs.index(exp["row_nnz"])]))
 
 
+def _impl_worker(args):
+    case, base = args
+    wd = os.path.join(base, f"p{os.getpid()}")            # one scratch directory per worker process
+    os.makedirs(wd, exist_ok=True)
+    return impl_case(case, os.path.join(wd, "c.cool"))
+
+
+def run_impl_cases(cases, d):
+    """the implementation side of every case (each one is independent of the others: own process history, own files);
+    4 worker processes, results in case order; sequential fallback if the pool cannot be used"""
+    import multiprocessing as mp
+    args = [(c, str(d)) for c in cases]
+    if os.environ.get("VERIF_SERIAL") != "1":
+        try:
+            with mp.get_context("fork").Pool(4) as pool:
+                return list(pool.imap(_impl_worker, args, chunksize=6))
+        except Exception as e:  # noqa: BLE001
+            print("note: worker pool unavailable (%s), running sequentially" % type(e).__name__)
+    return [_impl_worker(a) for a in args]
+
+
 def run(ctx):
     import simplejson
     cases = gen_cases(ctx)
     d = ctx.tmp / "coolers"
     d.mkdir(exist_ok=True)
-    outs = []
-    for k, case in enumerate(cases):
-        if case.get("skip_read"):
-            # out-of-range ids stored with boundscheck off: only the raw columns are meaningful
-            pass
-        outs.append(impl_case(case, str(d / f"c{k % 8}.cool")))
+    outs = run_impl_cases(cases, d)
     exprs = [model_expr(c) for c in cases]
     model = C.coq_eval("From Cooler Require Import Model.Create.", exprs, preamble=MODEL_PREAMBLE, tmpdir=ctx.tmp / "model", shard=60, jobs=4)
     for case, out, mv in zip(cases, outs, model):
